@@ -6,6 +6,9 @@ pub mod c06;
 pub mod c07;
 pub mod c11;
 pub mod c12;
+pub mod c14;
+pub mod c16;
+pub mod c15;
 pub mod c19;
 pub mod c20;
 pub mod grammar;
@@ -26,6 +29,9 @@ pub fn run(id: &str, tier: Tier) -> i32 {
         "C11" => c11::run(tier),
         "C12" => c12::run(tier),
         "C12-part" => c12::run_part(tier),
+        "C14" => c14::run(tier),
+        "C15" => c15::run(tier),
+        "C16" => c16::run(tier),
         "C19" => c19::run(tier),
         "C20" => c20::run(tier),
         "C08" => loopprops::run_c08(tier),
@@ -40,6 +46,9 @@ pub fn replay(id: &str, case: &Value) -> i32 {
         "C07" => c07::replay(case),
         "C11" => c11::replay(case),
         "C12" => c12::replay(case),
+        "C14" => c14::replay(case),
+        "C15" => c15::replay(case),
+        "C16" => c16::replay(case),
         "C19" => c19::replay(case),
         "C20" => c20::replay(case),
         "C02" | "C03" | "C09" | "C10" => proto::replay(id, case),
